@@ -140,6 +140,9 @@ func (t *Ty) Key(p *Program) string {
 		ms := append([]string(nil), t.Meths...)
 		sort.Strings(ms)
 		var fs []string
+		for _, em := range t.Embeds {
+			fs = append(fs, em.Key(p))
+		}
 		for _, m := range ms {
 			fs = append(fs, m+"()")
 		}
@@ -241,6 +244,9 @@ type Item struct {
 	Variadic bool     `json:"variadic,omitempty"`
 	// Mutate: after logging, the function adds 7 to the Scratch_ field of every struct it receives by pointer.
 	Mutate bool `json:"mutate,omitempty"`
+	// Spelling (KBind): "" = wire.Bind(new(I), new(T)); "typed-nil-second" = wire.Bind(new(I), (*T)(nil));
+	// "typed-nil-both" = wire.Bind((*I)(nil), (*T)(nil)). Only the arguments' types matter.
+	Spelling string `json:"spelling,omitempty"`
 	// raw result list override for signature tests (C09)
 	RawResults []string `json:"raw_results,omitempty"`
 	Stub       bool     `json:"stub,omitempty"` // body panics; never executed
@@ -341,6 +347,9 @@ type Program struct {
 	// AliasImports: the user's files import the program's own packages under an alias that
 	// differs from the package name (al_<name>).
 	AliasImports bool `json:"alias_imports,omitempty"`
+	// GeneratedHeader: the injector files start with a "Code generated ... DO NOT EDIT." comment
+	// (templates written by another tool).
+	GeneratedHeader bool `json:"generated_header,omitempty"`
 	// RawDriver: an Extra file provides func Scenarios() for pkg 0.
 	RawDriver bool `json:"raw_driver,omitempty"`
 	// RejectOK: rejection with a diagnostic is as acceptable as compilable output.
@@ -385,7 +394,7 @@ func (p *Program) AddSet(s *Set) *Set {
 
 // Clone deep-copies a program (decl pointers are re-linked).
 func (p *Program) Clone() *Program {
-	q := &Program{ID: p.ID, Module: p.Module, Note: p.Note, RejectOK: p.RejectOK, RawDriver: p.RawDriver, AliasImports: p.AliasImports}
+	q := &Program{ID: p.ID, Module: p.Module, Note: p.Note, RejectOK: p.RejectOK, RawDriver: p.RawDriver, AliasImports: p.AliasImports, GeneratedHeader: p.GeneratedHeader}
 	for _, k := range p.Pkgs {
 		c := *k
 		q.Pkgs = append(q.Pkgs, &c)
